@@ -330,7 +330,7 @@ func (b *Backend) groupHelpers() {
 			}
 			text := l.Variant.String()
 			switch {
-			case l.Batch.LabelDef != "" && !strings.HasPrefix(l.Batch.LabelDef, "_eo_") && l.Em.Sink == "addHelperLine" && cur == "":
+			case l.Batch.LabelDef != "" && !strings.HasPrefix(l.Batch.LabelDef, "_eo_") && l.Em.Sink != b.X.EndSink && cur == "":
 				cur = l.Batch.LabelDef
 				continue
 			case strings.HasPrefix(text, ":_eo_"):
